@@ -120,7 +120,22 @@ func (c *ChecksumChecker) checksum(t *ast.Task) (string, error) {
 }
 
 func (checker *ChecksumChecker) checksumFilePath(t *ast.Task) string {
-	return filepath.Join(checker.tempDir, "checksum", stateFilename(t.Name()))
+	return filepath.Join(checker.tempDir, "checksum", checksumFilename(t))
+}
+
+// checksumFilename is the name of the checksum file of a task. The state
+// belongs to the pair (task name, label): a task without label keeps the file
+// named after the task; a labelled task gets the normalized label (for the
+// reader), a '.' - which stateFilename never produces, so the name cannot be
+// that of an unlabelled task - and a hash of the length-prefixed pair, an
+// injective encoding of (task name, label). Two tasks with the same label, or
+// a task whose label is another task's name, therefore never share a file.
+func checksumFilename(t *ast.Task) string {
+	if t.Label == "" {
+		return stateFilename(t.Task)
+	}
+	pair := fmt.Sprintf("%d:%s%s", len(t.Task), t.Task, t.Label)
+	return fmt.Sprintf("%s.%016x", normalizeFilename(t.Label), xxh3.HashString(pair))
 }
 
 // stateFilename is the name of the file that keeps the state of the task with
